@@ -7,6 +7,9 @@
 //   apbp   host view of both mailboxes and semaphores, interrupt-disable bits
 //   mmio   read-back of every even MMIO offset (mailbox receive registers excluded: reading them is a receive)
 //   dma    the register window of all eight channels,  ahbm  channel settings,  miu  MIU registers
+//   ahbm   the hidden AHBM state (busy flag; per channel unit/burst/direction/DMA channel, the burst FIFO with its
+//          pending words, write_burst_start),  ext  number and digest of the external-memory callbacks made
+//          since the previous observation (reads return a hash of the address, so stale burst words show)
 //   mem    number of non-zero bytes of DSP memory and the first few of them
 // Lines: New(kind) / Hist(n ops, digest) / Reset / Obs(when, o).  `when` tells the specification which rule
 // applies: "fresh" (constructed, not reset), "fresh_reset", "dirty", "reset" (history, then Reset()).
@@ -34,6 +37,9 @@ static void pollute_heap(vh::Rng& rng) {
 struct Inst {
     std::unique_ptr<Teakra::Teakra> t;
     long audio = 0, rd[3] = {0, 0, 0}, sem = 0;
+    long ext_n = 0; u32 ext_h = 0;
+    void ext(u32 kind, u32 addr, u32 v) { ++ext_n; ext_h = (ext_h * 16777619u) ^ (kind * 0x9E3779B1u + addr * 31u + v); }
+    static u32 mix(u32 a) { a ^= a >> 15; a *= 0x2C1B3C6Du; a ^= a >> 12; return a; }
     auto& impl() { return *TeakraVerifAccess::impl(*t); }
     auto& interp() { return TeakraVerifAccess::interpreter(*TeakraVerifAccess::impl(TeakraVerifAccess::processor(impl()))); }
     void make() {
@@ -43,9 +49,12 @@ struct Inst {
         for (int i = 0; i < 3; ++i) t->SetRecvDataHandler(i, [this, i]() { ++rd[i]; });
         t->SetSemaphoreHandler([this]() { ++sem; });
         Teakra::AHBMCallback cb;
-        cb.read8 = [](u32) -> u8 { return 0; };  cb.write8 = [](u32, u8) {};
-        cb.read16 = [](u32) -> u16 { return 0; }; cb.write16 = [](u32, u16) {};
-        cb.read32 = [](u32) -> u32 { return 0; }; cb.write32 = [](u32, u32) {};
+        cb.read8 = [this](u32 a) -> u8 { u8 v = (u8)mix(a); ext(1, a, v); return v; };
+        cb.write8 = [this](u32 a, u8 v) { ext(2, a, v); };
+        cb.read16 = [this](u32 a) -> u16 { u16 v = (u16)mix(a); ext(3, a, v); return v; };
+        cb.write16 = [this](u32 a, u16 v) { ext(4, a, v); };
+        cb.read32 = [this](u32 a) -> u32 { u32 v = mix(a); ext(5, a, v); return v; };
+        cb.write32 = [this](u32 a, u32 v) { ext(6, a, v); };
         t->SetAHBMCallback(cb);
     }
 };
@@ -111,6 +120,23 @@ static std::string observe(Inst& in) {
                       (int)TeakraVerifAccess::transmit_queue(b).size(), (int)TeakraVerifAccess::transmit_clock_config(b)}) bt.push_back(v);
     }
     o += ",\"btdmp\":" + vh::arr(bt.begin(), bt.end());
+    std::vector<int> ah;
+    {
+        Ahbm& A = in.impl().ahbm;
+        ah.push_back(A.GetBusyFlag());
+        auto& chs = TeakraVerifAccess::channels(A);
+        for (int i = 0; i < 3; ++i) {
+            auto& c = chs[i];
+            auto q = c.burst_queue;
+            for (int v : {(int)c.unit_size, (int)c.burst_size, (int)c.direction, (int)c.dma_channel, (int)q.size(),
+                          (int)(c.write_burst_start >> 16), (int)(c.write_burst_start & 0xFFFF)}) ah.push_back(v);
+            for (int k = 0; k < 3; ++k) { u32 w = 0; if (!q.empty()) { w = q.front(); q.pop(); } ah.push_back((int)(w >> 16)); ah.push_back((int)(w & 0xFFFF)); }
+        }
+    }
+    o += ",\"ahbm\":" + vh::arr(ah.begin(), ah.end());
+    int ex[3] = {(int)in.ext_n, (int)(in.ext_h >> 16), (int)(in.ext_h & 0xFFFF)};
+    o += ",\"ext\":" + vh::arr(ex, ex + 3);
+    in.ext_n = 0; in.ext_h = 0;
     const u8* mem = in.t->GetDspMemory();
     long nz = 0;
     std::vector<int> first;
@@ -149,7 +175,10 @@ static void history(Inst& in, vh::Rng& rng, int ops) {
             else if (r < 72) in.t->DataWrite(rng.u16() & 0x7FFF, rng.u16());
             else if (r < 75) in.t->ProgramWrite(0x2000 + rng.below(0x100), rng.u16());
             else if (r < 80) in.t->MMIORead((u16)(rng.below(0x400) * 2));
-            else if (r < 85) in.t->AHBMWrite16(rng.below(64) * 2, rng.u16());
+            else if (r < 82) in.t->AHBMWrite16(rng.below(64) * 2 + rng.below(2), rng.u16());
+            else if (r < 83) in.t->AHBMWrite32(rng.below(64) * 4 + rng.below(4), ((u32)rng.u16() << 16) | rng.u16());
+            else if (r < 85) { if (rng.chance(1, 2)) in.t->AHBMRead16(rng.below(256)); else in.t->AHBMRead32(rng.below(256)); }
+            else if (r < 87) in.t->MMIOWrite(0xE2, (u16)((rng.below(3) << 1) | (rng.below(3) << 4) | (rng.u16() & 0xFFC9)));   // AHBM channel 0: burst x1/x4/x8, unit 8/16/32
             else in.t->Run(1 + rng.below(60));
         } catch (const TeakraVerifAssert&) {
         } catch (const UnimplementedException&) {
